@@ -32,8 +32,9 @@ THEOREMS = ["Mesa.Rng." + t for t in (
         "C01_legacy_sorted_set_order_independent", "C01_legacy_move_to_empty_pick_order_independent",
         "C01_legacy_move_to_empty_draws_by_size", "C01_legacy_move_to_empty_is_the_model",
         "C01_legacy_hex_neighborhood_set_order_independent")] + [
-    "Mesa.Cells." + t for t in (
-        "C01_cells_collections_carry_the_space_generator", "C01_cells_selection_determined", "C01_cells_random_empty_determined")]
+    # of Props/C01Cells.lean only the theorem with content beyond its definitions is claimed here (second review: the other two
+    # are an induction over a hand-written table and a congruence of equality; they stay compiled and audited under C06)
+    "Mesa.Cells." + t for t in ("C01_cells_random_empty_determined",)]
 COUNTS = {"quick": 24, "thorough": 240}
 WATCHDOG = 400
 HEADER_LINES = 0
